@@ -1157,9 +1157,18 @@ where
             .await
             .map(move |value| {
                 // The type of the new value will be `a` instead of `IO a`
-                let actual = resolve::remove_aliases_cow(&vm.get_env(), &mut NullInterner, &typ);
+                // (`forall a . IO (Array a)` becomes `forall a . Array a`)
+                let params = match *typ {
+                    Type::Forall(ref params, _) => params.to_vec(),
+                    _ => Vec::new(),
+                };
+                let actual = resolve::remove_aliases_cow(
+                    &vm.get_env(),
+                    &mut NullInterner,
+                    crate::base::types::remove_forall(&typ),
+                );
                 let actual = match **actual {
-                    Type::App(_, ref arg) => arg[0].clone(),
+                    Type::App(_, ref arg) => Type::forall(params, arg[0].clone()),
                     _ => ice!("ICE: Expected IO type found: `{}`", actual),
                 };
                 ExecuteValue {
